@@ -138,3 +138,25 @@ Lemma gen_examples :
   gen_calcBitIndex (gen_bottom 16 (-1) 4 768 (-256)) 4 768 (-256) = 0 /\ gen_calcBitIndex (gen_top 16 (-1) 4 768 (-256)) 4 768 (-256) = 4 /\
   Ztrunc_f (gen_vindex (gen_cell_bottom 8 85 26 1000 0) 26) = Some 664 /\ Ztrunc_f (gen_vindex (gen_cell_top 8 85 26 1000 0) 26) = Some 671.
 Proof. vm_compute. repeat split. Qed.
+
+(* ---- the cell height of convertBitToVerticalID as regenerated (the local voxelHeight at the end of the function): the two generated
+   cell altitudes are k and k+1 generated cell heights above the lower end of the range; the height depends neither on the cell nor on
+   the output zoom, and on an ordered finite range it is not negative (BitAltV.cell_height_nonneg of the regenerated code) ---- *)
+Notation gen_cell_height := GeneratedF.convertBitToVerticalID_voxelHeight.
+Theorem gen_cell_altitudes_over_generated_height vz k oz mx mn :
+  gen_cell_bottom vz k oz mx mn = cell_alt k (gen_cell_height vz k oz mx mn) mn /\
+  gen_cell_top vz k oz mx mn = cell_alt (k + 1) (gen_cell_height vz k oz mx mn) mn /\
+  (forall k' oz', gen_cell_height vz k' oz' mx mn = gen_cell_height vz k oz mx mn) /\
+  gen_cell_top vz k oz mx mn = gen_cell_bottom vz (k + 1) oz mx mn.
+Proof.
+  rewrite gen_convertBitToVerticalID_maxAltitude_eq, !gen_convertBitToVerticalID_minAltitude_eq, gen_convertBitToVerticalID_voxelHeight_eq.
+  split; [reflexivity|]. split; [reflexivity|]. split; [|reflexivity].
+  intros k' oz'. now rewrite gen_convertBitToVerticalID_voxelHeight_eq.
+Qed.
+Theorem gen_cell_height_nonneg vz k oz (mx mn : pfloat) : 0 <= vz <= 35 -> fin mx -> fin mn -> (val mn <= val mx)%R ->
+  fin (mx - mn)%float -> fin (gen_cell_height vz k oz mx mn) -> (0 <= val (gen_cell_height vz k oz mx mn))%R.
+Proof. rewrite gen_convertBitToVerticalID_voxelHeight_eq. apply cell_height_nonneg. Qed.
+Example gen_cell_height_evaluated :
+  gen_cell_height 8 3 25 1000%float 0%float = 3.90625%float /\ gen_cell_bottom 8 3 25 1000%float 0%float = 11.71875%float /\
+  gen_cell_top 8 3 25 1000%float 0%float = 15.625%float.
+Proof. repeat split; vm_compute; reflexivity. Qed.
